@@ -170,6 +170,15 @@ def build_expr(t, ctx: Ctx):
         if len(t) > 2 and t[2] is not None:
             e = e.otherwise(build_expr(t[2], ctx))
         return e
+    if h == "case_ext":
+        # ["case_ext", base, [[cond, val], ...], default|None]: extends the (open) case expression
+        # object ``base`` - typically a pooled object - by further branches
+        e = build_expr(t[1], ctx)
+        for cond, val in t[2]:
+            e = e.when(build_expr(cond, ctx)).then(build_expr(val, ctx))
+        if len(t) > 3 and t[3] is not None:
+            e = e.otherwise(build_expr(t[3], ctx))
+        return e
     if h == "map":
         # ["map", x, [[key, val], ...], default|None]; key may be ["tuple", k...]
         mapping = {}
@@ -278,6 +287,14 @@ def apply_event(tbl, ev, ctx: Ctx):
     if k == "transfer":
         # materialise the current table as a fresh source and transfer references
         df = tbl >> pdt.export(pdt.Polars())
+        back = None
+        if len(ev) > 1 and ev[1] == "rot" and len(df.columns) > 1:
+            # ["transfer", "rot"]: the materialised table has its own history - it is stored with
+            # rotated column names and gets the names back by one (permutation) rename
+            names = list(df.columns)
+            rot = names[1:] + names[:1]
+            df = df.rename(dict(zip(names, rot)))
+            back = dict(zip(rot, names))
         if ctx.built.backend == "polars":
             fresh = pdt.Table(df, name=tbl._ast.name)
         else:
@@ -286,6 +303,8 @@ def apply_event(tbl, ev, ctx: Ctx):
             name = f"mat{ctx.built.n_mat}"
             df.write_database(name, ctx.built.engine, if_table_exists="replace")
             fresh = pdt.Table(name, pdt.SqlAlchemy(ctx.built.engine), name=tbl._ast.name)
+        if back:
+            fresh = fresh >> pdt.rename(back)
         return pdt.transfer_col_references(fresh, tbl)
     raise ValueError(f"unknown event {k!r}")
 
